@@ -2,15 +2,11 @@
 C14 liveness, part 4: progress and `drain`.
 -/
 import DosModel.Proofs.PipeLive3
+import DosModel.Model.PipeRun
 
 namespace Dos.Pipe
 
-/-- a pipeline (non-daemon) goroutine that has started and not returned -/
-def Running (p : Pipeline) (s : State) (g : Gi) : Prop :=
-  ∃ gr pc, p.gs[g]? = some gr ∧ gr.daemon = false ∧ s.gs[g]? = some (.at pc)
-
-/-- no pipeline goroutine is running: each one has returned (or was never started) -/
-def Quiet (p : Pipeline) (s : State) : Prop := ∀ g, ¬ Running p s g
+-- `Running`, `Quiet`: Model/PipeRun.lean
 
 theorem exists_min_of {α : Type} (P : α → Prop) (f : α → Nat) (h : ∃ x, P x) :
     ∃ x, P x ∧ ∀ y, P y → f x ≤ f y := by
